@@ -450,8 +450,53 @@ class Eval:
                     else:
                         self.loop_step[key] = v
 
+    def _unit_variant(self, y):
+        """(adt, variant name) of a field-less enum value written as a constant / aggregate, else None."""
+        yy = y
+        while yy.op in ("ref", "deref"):
+            yy = yy.a[0]
+        if yy.op == "promoted":
+            pv = self._promoted_term(yy.a[0])
+            if pv is None or pv.op == "promoted":
+                return None
+            yy = pv
+            while yy.op in ("ref", "deref"):
+                yy = yy.a[0]
+        if yy.op == "const" and yy.a[0] == "int" and len(yy.a) > 2 and yy.a[2] in self.prog.adts:
+            for v in self.prog.adts[yy.a[2]]["variants"]:
+                if v.get("discr", v["index"]) == yy.a[1]:
+                    return (yy.a[2], v["name"])
+        elif yy.op == "agg" and yy.a[0][0] == "adt" and not yy.a[1]:
+            return (yy.a[0][1], yy.a[0][2])
+        return None
+
+    def _derived_discr_eq(self, adt):
+        """Does `<adt as PartialEq>::eq` compare exactly the two discriminants of a field-less enum?"""
+        f = self.prog.fns.get("<%s as PartialEq>::eq" % adt)
+        a = self.prog.adts.get(adt)
+        if f is None or not a or any(v.get("fields") for v in a["variants"]):
+            return False
+        r = strip_sites(evaluate(f).ret)
+        if not (r.op == "bin" and r.a[0] == "Eq"):
+            return False
+        ps = []
+        for x in r.a[1:]:
+            if x.op != "discr":
+                return False
+            y = x.a[0]
+            while y.op in ("ref", "deref"):
+                y = y.a[0]
+            if y.op != "param":
+                return False
+            ps.append(y.a[0])
+        return sorted(ps) == [1, 2]
+
     def _fold_variant_eq(self, a, b):
-        """`x == CONST_VARIANT` where x is an assumed root: the comparison is decided by the assumption."""
+        """`x == CONST_VARIANT` where x is an assumed root: the comparison is decided by the assumption.
+        Two known field-less variants compared by the derived `==` are decided as well."""
+        ua, ub = self._unit_variant(a), self._unit_variant(b)
+        if ua and ub and ua[0] == ub[0] and self._derived_discr_eq(ua[0]):
+            return ua[1] == ub[1]
         for x, y in ((a, b), (b, a)):
             r = place_root(strip_sites(x))
             if r is None or r not in self.assume:
